@@ -294,6 +294,7 @@ pub fn run(tier: Tier) -> i32 {
     let deep = tier == Tier::Thorough;
     let tier = Tier::Thorough;
     rep.set("rule", json!("(values) 19 SVG 1.1 elements with geometry attributes, each in its standard context (gradients with stops inside defs, filter primitives inside filter, tspan inside text, use with its target, ...), x each of its numeric attributes x 11 number spellings (sign, leading/trailing dot, exponents, leading zero) x 10 units, inside a root <svg> and as a fragment; every element x 18 presentation/generic attributes. (paths) all sequences of <= 2 (thorough 3) of the 20 path commands after an initial moveto x 5 argument spellings (spaces, commas, sign/dot-separated, implicit repetition, packed arc flags / newlines); points lists and transform lists in their separator/arity variants. (structure) every parent/child pair of a 16 x 20 container/content table, author style/title/desc text, foreign content, use with href and xlink:href. (references) 12 target kinds x 6 size spellings x 8 id spellings (XML names such as a.b, ns:b, non-ASCII) x 5 use forms x {defs, sibling, forward, nested namespaced svg}; 8 IRI forms x 8 referencing elements. (white space) every table element with start/end tags around 6 kinds of layout white space, and shapes without a user-unit box. (text positioning) dx/dy/x/y lists on tref, altGlyph, tspan, glyphRef, feDropShadow. Oracle: transform Ok and the output element tree equals the input tree - same names, positions, attribute sets and values (numbers and number lists compared numerically to 3 decimals, everything else exactly), same character data - apart from synthesised root attributes; character-only content of a shape or text element is expected as generated text. Non-trivial = accepted and preserved."));
+    rep.set("also_later", json!("Rounds 3-5 added: characters which look blank but are not XML white space (also before a line break) are content; documents using entities of their own DOCTYPE give the output of the same document with the replacement text written out; the root's own style survives a configured svg-style; x / y of a plain <use> (nested svg target, origins with a fourth decimal, circle) stay as written."));
     rep.set("also", json!("Also: attributes of the root element itself (presentation attributes, class, id, aria / event attributes) preserved; clip-path / mask / filter / marker values none, inherit and basic shapes; transform lists with white space before the bracket and sign- or dot-separated arguments; <text> with character content under every standard x / y form (absent, number, list, unit, percent, in defs, in a fragment)."));
 
     // ---- (a) values
